@@ -266,9 +266,10 @@ func corpus(tier string, rng *rand.Rand) (subs []*subject, rejected []string) {
 	} else {
 		rejected = append(rejected, "text:full: "+err.Error())
 	}
+	add("api:mid(12 funcs)", "api", apiBig(rng, 12))
 	nf := 40
 	if tier == "thorough" {
-		nf = 160
+		nf = 80
 	}
 	add(fmt.Sprintf("api:big(%d funcs)", nf), "api", apiBig(rng, nf))
 	return subs, rejected
